@@ -155,7 +155,8 @@ theorem specDecide_perm {rules rules' : List PathRule} (h : rules.Perm rules') (
   | none => rfl
   | some pat => exact specCheck_perm (permsFor_perm h _ _) req cc
 
-theorem rulesOf_perm {ps ps' : List (Option Policy)} (h : ps.Perm ps') : (rulesOf ps).Perm (rulesOf ps') := by
+theorem rulesOf_perm (now : Int) {ps ps' : List (Option Policy)} (h : ps.Perm ps') :
+    (rulesOf now ps).Perm (rulesOf now ps') := by
   unfold rulesOf
   exact h.flatMap_right _
 
